@@ -20,6 +20,8 @@ import GPy.Common.Basic
 import GPy.C12.Conform
 import GPy.C12.Placement
 import GPy.C12.Assemble
+import GPy.C12.GenSteps  -- [C12-ext2 g3]
+import GPy.C12.GenTb  -- [C12-ext2 g4]
 namespace GPy.C12
 
 abbrev G := StateM Rng
@@ -560,9 +562,17 @@ def genMain (tier : String) (seed : Nat) : IO Unit := do
   -- feat
   for (n, ls) in featPrograms do
     out := out.push (mkCase ("feat:" ++ n) ls ["nt"]).line
+  -- [C12-ext2 g3] begin
+  for (n, ls) in featProgramsSteps do
+    out := out.push (mkCase ("feat:" ++ n) ls ["nt"]).line
+  -- [C12-ext2 g3] end
   -- a code object larger than 64 KiB: absolute jump operands above 0xFFFF (EXTENDED_ARG on a jump)
   let big := (List.replicate 7000 "    a = a + 1")
   out := out.push (mkCase "feat:big-if-extended-jump" (["a = 0", "if a == 0:"] ++ big ++ ["else:", "    a = 5", "b = a"]) ["nt"]).line
+  -- [C12-ext2 g4] begin
+  -- tb: traceback lines of faults inside multi-line expressions / decorators / defaults / with items / assert / comprehensions
+  for c in Tb.tbCases tier seed do out := out.push c.line
+  -- [C12-ext2 g4] end
   -- asm: the assembler / StackDepth model against the real ones
   for t in asmFixed do out := out.push (asmCase t).line
   let mut ra : Rng := ⟨(seed + 77).toUInt64⟩
